@@ -1153,19 +1153,39 @@ func (c *Check) derivedQueueOrder(rule string) {
 		if p.isGenerated(f) || len(f.Blocks) == 0 || !strings.HasPrefix(FuncKey(f), "x/relayer/keeper.") {
 			continue
 		}
-		for _, s := range p.renderedStores(f) {
-			if !strings.HasSuffix(s.addr, ".Voters") || !strings.HasPrefix(s.val, "append(") {
-				continue
-			}
-			for _, q := range []string{"OnBoarding", "OffBoarding"} {
-				list := "Queue.Get()#0." + q
-				args := topArgs(s.val[len("append(") : len(s.val)-1])
-				if len(args) != 2 || args[1] != list {
+		r := p.R(f)
+		for _, b := range f.Blocks {
+			for _, in := range b.Instrs {
+				st, ok := in.(*ssa.Store)
+				if !ok {
 					continue
 				}
+				fa, ok := st.Addr.(*ssa.FieldAddr)
+				if !ok || fieldName(fa.X.Type(), fa.Field) != "Voters" || namedOf(fa.X.Type()) == nil || namedOf(fa.X.Type()).Obj().Name() != "Relayer" {
+					continue
+				}
+				app, ok := st.Val.(*ssa.Call)
+				if !ok || len(app.Call.Args) != 2 {
+					continue
+				}
+				if bi, isB := app.Call.Value.(*ssa.Builtin); !isB || bi.Name() != "append" {
+					continue
+				}
+				// the appended slice: a whole queue list (a load of VoterQueue.OnBoarding / OffBoarding)
+				ld, ok := app.Call.Args[1].(*ssa.UnOp)
+				if !ok {
+					continue
+				}
+				qa, ok := ld.X.(*ssa.FieldAddr)
+				if !ok || namedOf(qa.X.Type()) == nil || namedOf(qa.X.Type()).Obj().Name() != "VoterQueue" {
+					continue
+				}
+				q := fieldName(qa.X.Type(), qa.Field)
+				list := r.E(app.Call.Args[1])
 				n++
 				c.touch(f)
-				cons := "derived-order Queue." + q + " → Relayer.Voters @ " + FuncKey(f)
+				// keyed by what is copied into what, not by the function that happens to do it
+				cons := "derived-order Queue." + q + " → Relayer.Voters"
 				sorted := regexp.MustCompile(`^(slices\.Sort|sort\.Strings|slices\.SortFunc|slices\.SortStableFunc)\(` + regexp.QuoteMeta(list) + `[,)]`)
 				var sorts []ssa.Instruction
 				for _, ci := range callsIn(f) {
@@ -1173,10 +1193,10 @@ func (c *Check) derivedQueueOrder(rule string) {
 						sorts = append(sorts, ci)
 					}
 				}
-				if t, _ := (&PathSearch{Fn: f, AvoidInstr: instrSet(sorts), IsTarget: func(in ssa.Instruction) bool { return in == ssa.Instruction(s.in) }}).Find(); t == nil && len(sorts) > 0 {
-					c.Held(rule, cons, p.InstrPos(s.in), "the list is sorted before its order is copied into the group")
+				if t, _ := (&PathSearch{Fn: f, AvoidInstr: instrSet(sorts), IsTarget: func(x ssa.Instruction) bool { return x == ssa.Instruction(st) }}).Find(); t == nil && len(sorts) > 0 {
+					c.Held(rule, cons, p.InstrPos(st), "the list is sorted before its order is copied into the group")
 				} else {
-					c.Violated(rule, cons, p.InstrPos(s.in), "the voter list of the relayer group takes over the order of Queue."+q+", which is arrival order on the running chain but voter-record (address) order on a chain initialised from an export (the queue is not exported; InitGenesis rebuilds it from the voter records): the two chains elect differently ordered groups")
+					c.Violated(rule, cons, p.InstrPos(st), "the voter list of the relayer group takes over the order of Queue."+q+" (in "+FuncKey(f)+"), which is arrival order on the running chain but voter-record (address) order on a chain initialised from an export (the queue is not exported; InitGenesis rebuilds it from the voter records): the two chains elect differently ordered groups")
 				}
 			}
 		}
